@@ -25,6 +25,6 @@ mp = os.path.join(V, 'mutants', 'EXPECT.manual.json')
 if os.path.exists(mp):
     for name, e in json.load(open(mp)).items():
         for pid, ks in e.items():
-            out.setdefault(name, {}).setdefault(pid, ks)
+            out.setdefault(name, {})[pid] = ks          # hand-maintained entries win (rules changed after the run)
 json.dump(out, open(os.path.join(V, 'mutants', 'EXPECT.json'), 'w'), indent=1, sort_keys=True)
 print(len(out), 'changes with expectations')
